@@ -603,8 +603,10 @@ def check(scenario, w, st, res):
         if d.op not in ('disc', 'disc_imm') or not d.r.ok:
             continue
         if any(o.r.inv < d.r.ret and (o.r.ret or 10**12) > d.r.inv
+               and not (not o.r.ok and
+                        type(o.r.exc).__name__ == 'InvalidState')
                for o in opens):
-            continue          # concurrent with an opening call: either
+            continue          # concurrent with an effective opening call
         # window end: the next opening call's invocation - or its return if
         # it was refused (a refused call changes nothing itself)
         nxt = min([(o.r.ret if (not o.r.ok and o.r.ret is not None and
